@@ -10,7 +10,8 @@
    until its unregister, so the unregister must be executed.
    Codes: 1101 an action was executed that the script / abstract state does not
    allow at this point; 1102 an action allowed by the abstract state was
-   skipped. *)
+   skipped; 1103 the loop polls repeatedly
+   (two consecutive waits return nothing without sleeping) without running any callback. *)
 
 From Coq Require Import List ZArith Bool.
 From Ivv Require Import Core.Kernel Core.CoreTypes Core.CoreFd Core.Monitors.
@@ -26,31 +27,51 @@ Record gmon := {
   g_wloaded : bool;                (* the external actions of the coming wait have been loaded *)
   g_fails : list Z;
   g_done : bool;                   (* the trace was cut (LIMIT/HANG/FATAL/CRASH) *)
+  g_idle_now : bool;               (* the last wait returned nothing without sleeping and no callback ran since *)
+  g_idle : Z;                      (* consecutive such iterations *)
 }.
 
 Definition gmon0 (sc : scenario) : gmon :=
   {| g_m := mon0; g_todo := sc_setup sc; g_closed := fun _ => false; g_inv := fun _ => 0;
-     g_nwait := 0; g_wloaded := false; g_fails := []; g_done := false |}.
+     g_nwait := 0; g_wloaded := false; g_fails := []; g_done := false;
+     g_idle_now := false; g_idle := 0 |}.
 
 Definition g_with (g : gmon) (m : mon) (todo : list action) : gmon :=
   {| g_m := m; g_todo := todo; g_closed := g_closed g; g_inv := g_inv g; g_nwait := g_nwait g;
-     g_wloaded := g_wloaded g; g_fails := g_fails g; g_done := g_done g |}.
+     g_wloaded := g_wloaded g; g_fails := g_fails g; g_done := g_done g;
+     g_idle_now := g_idle_now g; g_idle := g_idle g |}.
 Definition g_fail (g : gmon) (c : Z) : gmon :=
   {| g_m := g_m g; g_todo := g_todo g; g_closed := g_closed g; g_inv := g_inv g; g_nwait := g_nwait g;
      g_wloaded := g_wloaded g; g_fails := if mem_z c (g_fails g) then g_fails g else g_fails g ++ [c];
-     g_done := g_done g |}.
+     g_done := g_done g;
+     g_idle_now := g_idle_now g; g_idle := g_idle g |}.
 Definition g_set_closed (g : gmon) (f : Z -> bool) : gmon :=
   {| g_m := g_m g; g_todo := g_todo g; g_closed := f; g_inv := g_inv g; g_nwait := g_nwait g;
-     g_wloaded := g_wloaded g; g_fails := g_fails g; g_done := g_done g |}.
+     g_wloaded := g_wloaded g; g_fails := g_fails g; g_done := g_done g;
+     g_idle_now := g_idle_now g; g_idle := g_idle g |}.
 Definition g_set_inv (g : gmon) (f : Z -> Z) : gmon :=
   {| g_m := g_m g; g_todo := g_todo g; g_closed := g_closed g; g_inv := f; g_nwait := g_nwait g;
-     g_wloaded := g_wloaded g; g_fails := g_fails g; g_done := g_done g |}.
+     g_wloaded := g_wloaded g; g_fails := g_fails g; g_done := g_done g;
+     g_idle_now := g_idle_now g; g_idle := g_idle g |}.
 Definition g_set_wait (g : gmon) (n : Z) (l : bool) : gmon :=
   {| g_m := g_m g; g_todo := g_todo g; g_closed := g_closed g; g_inv := g_inv g; g_nwait := n;
-     g_wloaded := l; g_fails := g_fails g; g_done := g_done g |}.
+     g_wloaded := l; g_fails := g_fails g; g_done := g_done g;
+     g_idle_now := g_idle_now g; g_idle := g_idle g |}.
 Definition g_set_done (g : gmon) : gmon :=
   {| g_m := g_m g; g_todo := g_todo g; g_closed := g_closed g; g_inv := g_inv g; g_nwait := g_nwait g;
-     g_wloaded := g_wloaded g; g_fails := g_fails g; g_done := true |}.
+     g_wloaded := g_wloaded g; g_fails := g_fails g; g_done := true;
+     g_idle_now := g_idle_now g; g_idle := g_idle g |}.
+
+Definition g_set_idle (g : gmon) (now : bool) (n : Z) : gmon :=
+  {| g_m := g_m g; g_todo := g_todo g; g_closed := g_closed g; g_inv := g_inv g; g_nwait := g_nwait g;
+     g_wloaded := g_wloaded g; g_fails := g_fails g; g_done := g_done g; g_idle_now := now; g_idle := n |}.
+
+(* iteration boundary for the busy-poll rule (code 1103): two consecutive iterations whose wait returned
+   no event without sleeping and in which no callback ran *)
+Definition idle_boundary (g : gmon) : gmon :=
+  let n := if g_idle_now g then g_idle g + 1 else 0 in
+  let g := if 2 <=? n then g_fail g 1103 else g in
+  g_set_idle g false n.
 
 (* does the abstract state allow this scripted call? *)
 Definition allowed (g : gmon) (a : action) : bool :=
@@ -162,28 +183,29 @@ Definition gstep (sc : scenario) (g : gmon) (e : tev) : gmon :=
                 end in
       track g3 e
   | TCallFd _ _ hid _ =>
-      let g := track (boundary g) e in
+      let g := g_set_idle (track (boundary g) e) false (g_idle g) in
       let '(g, l) := script_of sc g hid in g_with g (g_m g) l
   | TCallTimer j _ =>
-      let g := track (boundary g) e in
+      let g := g_set_idle (track (boundary g) e) false (g_idle g) in
       let '(g, l) := script_of sc g (HK_T + j) in g_with g (g_m g) l
   | TCallTask j =>
-      let g := track (boundary g) e in
+      let g := g_set_idle (track (boundary g) e) false (g_idle g) in
       let '(g, l) := script_of sc g (HK_K + j) in g_with g (g_m g) l
   | TCallEvent j =>
-      let g := track (boundary g) e in
+      let g := g_set_idle (track (boundary g) e) false (g_idle g) in
       let '(g, l) := script_of sc g (HK_E + j) in g_with g (g_m g) l
   | TCallRaw j =>
-      let g := track (boundary g) e in
+      let g := g_set_idle (track (boundary g) e) false (g_idle g) in
       let '(g, l) := script_of sc g (HK_R + j) in g_with g (g_m g) l
   | TMain => g_with (track (boundary g) e) (mon_step (g_m (boundary g)) e) []
   | TWait n _ _ _ _ _ =>
       (* if the wait's external actions were not loaded yet, none of them may have been allowed *)
       let g := if g_wloaded g then boundary g
                else boundary (g_with (boundary g) (g_m g) (sc_wait sc (g_nwait g + 1))) in
-      g_set_wait (g_with (track g e) (mon_step (g_m g) e) []) n false
-  | TEnd _ _ => g_with (track (boundary g) e) (mon_step (g_m (boundary g)) e) teardown_script
+      idle_boundary (g_set_wait (g_with (track g e) (mon_step (g_m g) e) []) n false)
+  | TEnd _ _ => idle_boundary (g_with (track (boundary g) e) (mon_step (g_m (boundary g)) e) teardown_script)
   | TTear _ => g_with (track (boundary g) e) (mon_step (g_m (boundary g)) e) []
+  | TRet (Some n) _ clk => g_set_idle (track g e) ((n =? 0) && (clk =? a_clk (g_m g))) (g_idle g)
   | TLimit | THang | TFatal | TCrash => g_set_done (track g e)
   | _ => track g e
   end.
